@@ -121,6 +121,16 @@ CHECKS = {
         note="Appended geometries have the ensemble's atom count; a new conformer's weight may be any real number; ConformerEnsemble(molecule) coordinate values not asserted.",
         technique="stateful model-based testing (Hypothesis op lists) against a numpy reference model",
     ),
+    "C15": dict(
+        category="exploration",
+        text="Exhaustive leg: all labelled simple graphs on <=5 (quick) / <=6 (thorough) atoms with every start atom, every (start, neighbour) direction and every bond; random leg: "
+             "generated forests with ring closures up to 40 atoms as Connectivity / Molecule / ConformerEnsemble; matching leg: patterns cut from the source (wildcard, own bond "
+             "types, absent). References written for this harness: BFS distances, low-link bridge finder (cross-checked with networkx), backtracking induced-embedding search; the "
+             "SET of returned mappings must equal the reference set.",
+        design_ref="DESIGN.md section 5, C15",
+        note="No parallel bonds / self loops; _edge_match's type rules beyond the statement are only exercised where every rule is satisfied.",
+        technique="bounded-exhaustive enumeration + random graph generation against independent reference algorithms",
+    ),
     "C02": dict(
         category="exploration",
         text="Bounded-exhaustive (all op sequences up to length 4/5 over a 14-letter alphabet on two raw UKVFile handles) plus random "
